@@ -1,12 +1,14 @@
 (* Properties_C04.v -- C04: PMarc -pm1-/-pm2- decode every valid stream exactly.
    The specification (pcmd, pm_expand, move-to-front history with the PMarc
    starting order, the pm1 and pm2 serialisers with every table form, wf_pm1,
-   wf_pm2, the zero-extension rule) is S_Pm.v.  Proved so far: facts about the
-   specification; the round trips (pm2_roundtrip, pm1_roundtrip,
+   wf_pm2, the zero-extension rule) is S_Pm.v.  Proved: the decoders' history list IS the
+   specification's move-to-front list (history_list_is_mtf), and the pm2 round
+   trip for every single-segment stream of literals with ANY well-formed code
+   table (pm2_roundtrip_partial: no copy commands, fewer than 1024 bytes, so no
+   table re-read).  The full round trips (copies, segments, pm1,
    pm1_zero_extension) are decided by the direct oracle of the check (C output =
-   extracted spec expansion on streams produced by the extracted serialisers)
-   until their proofs are complete. *)
-From Lhasa Require Import Base S_Pm.
+   extracted spec expansion on streams produced by the extracted serialisers). *)
+From Lhasa Require Import Base ListN DecBase Generated Decoder PmaCommon Pm2 S_Larc S_Pm P_Decoder P_PmaCommon P_Pm2 P_Pm2Rt P_Pm2Lens.
 Local Open Scope N_scope.
 
 (* The starting history holds all 256 byte values, each once, in the PMarc order
@@ -16,3 +18,33 @@ Example pm_mtf0_is_pmarc_order :
   nth 128 pm_mtf0 0 = 160 /\ nth 192 pm_mtf0 0 = 128 /\ nth 224 pm_mtf0 0 = 224 /\
   forallb (fun b => N.of_nat (length (filter (N.eqb b) pm_mtf0)) =? 1) (map N.of_nat (seq 0 256)) = true.
 Proof. repeat split; vm_compute; reflexivity. Qed.
+
+(* lib/pma_common.c: after any sequence of byte uses the history list is the
+   specification's move-to-front list, and lookups by count return its entries *)
+Theorem history_list_is_mtf : forall bs, Forall (fun b => b < 256) bs ->
+  exists h0 h', init_history_list = Ok h0 /\ hl_run h0 bs = Ok h' /\ hl_wf h' /\
+    hl_list h' = fold_left mtf_front bs pm_mtf0 /\
+    forall count, count < 256 -> find_in_history_list h' count = Ok (nthN (fold_left mtf_front bs pm_mtf0) count).
+Proof.
+  intros bs Hall. destruct init_history_list_wf as (h0 & E0 & W0 & L0).
+  destruct (P_PmaCommon.history_list_is_mtf bs Hall h0 W0) as (h' & E & W & L & F).
+  exists h0, h'. rewrite <- L0. auto.
+Qed.
+
+(* pm2, partial: literal-only single-segment streams, any well-formed code table,
+   any trailing bytes, any sequence of read sizes covering the output *)
+Theorem pm2_roundtrip_partial : forall f ct off bs tail s0 ks,
+  wf_pm2 (lit_stream f ct off bs) = true -> nlen bs < 1024 ->
+  Forall (fun b => b < 256) tail -> pm2_init = Ok s0 ->
+  let d := lit_stream f ct off bs in
+  let src := {| src_data := pm2_serialise d ++ tail; src_chunks := [] |} in
+  let L := nlen (pm2_denote d) in
+  L <= sum_N ks -> sum_N ks < 2 ^ 62 ->
+  pm2_denote d = bs /\
+  exists os d',
+    run_reads (pm2_read src_cb) pm2_max_read pm2_block_size (lha_decoder_new s0 src L) ks = Ok (os, d') /\
+    concat os = pm2_denote d.
+Proof. exact pm2_literals_roundtrip. Qed.
+
+Print Assumptions history_list_is_mtf.
+Print Assumptions pm2_roundtrip_partial.
